@@ -268,6 +268,8 @@ type ConflictAtom struct {
 	Name     string
 	Apply    func(ss []*SvcSpec)
 	Conflict bool // false: an acceptable difference (only permutation invariance is judged)
+	// Third, if set, is one more service, listed behind the others (its conflict is with something two earlier services share)
+	Third func() *SvcSpec
 }
 
 func kindDecl(kind, name string) (extra string, types func(s *SvcSpec)) {
@@ -297,11 +299,11 @@ func rootFor(kind, name, field string) string {
 
 func conflictAtoms() []ConflictAtom {
 	var out []ConflictAtom
-	out = append(out, ConflictAtom{"same-root-field-twice", func(ss []*SvcSpec) { ss[1].Query = append(ss[1].Query, "n1s: [N1!]!") }, true})
+	out = append(out, ConflictAtom{"same-root-field-twice", func(ss []*SvcSpec) { ss[1].Query = append(ss[1].Query, "n1s: [N1!]!") }, true, nil})
 	out = append(out, ConflictAtom{"same-mutation-root-field-twice", func(ss []*SvcSpec) {
 		ss[0].Mut = append(ss[0].Mut, "dupMut(x: Int): Int")
 		ss[1].Mut = append(ss[1].Mut, "dupMut(x: Int): Int")
-	}, true})
+	}, true, nil})
 	kinds := []string{"object", "interface", "enum", "scalar", "input", "union"}
 	for i, k1 := range kinds {
 		for _, k2 := range kinds[i+1:] {
@@ -317,38 +319,76 @@ func conflictAtoms() []ConflictAtom {
 					}
 					ss[si].Query = append(ss[si].Query, rootFor(k, "K", fmt.Sprintf("k%d", si)))
 				}
-			}, true})
+			}, true, nil})
 		}
 	}
+	// a type two services share (fields of their own each, so that the merger has built its own definition of it by then) and
+	// a service listed behind them which declares the name as something else
+	for _, k := range []string{"interface", "enum", "scalar", "input", "union", "node-object"} {
+		k := k
+		out = append(out, ConflictAtom{Name: "type-shared-by-two-services-third-says-" + k, Conflict: true, Apply: func(ss []*SvcSpec) {
+			ss[0].addType("K3", "", "a: Int")
+			ss[0].Query = append(ss[0].Query, "k30: K3")
+			ss[1].addType("K3", "", "b: Int")
+			ss[1].Query = append(ss[1].Query, "k31: K3")
+		}, Third: func() *SvcSpec {
+			s := newSvc("http://sx")
+			if k == "node-object" {
+				s.addType("K3", "Node", "c: Int")
+				s.Query = []string{"k3x: K3"}
+				return s
+			}
+			ex, tf := kindDecl(k, "K3")
+			if ex != "" {
+				s.Extra = append(s.Extra, ex)
+			}
+			if tf != nil {
+				tf(s)
+			}
+			s.Query = []string{rootFor(k, "K3", "k3x")}
+			return s
+		}})
+	}
+	out = append(out, ConflictAtom{Name: "node-type-shared-by-two-services-third-says-plain-object", Conflict: true, Apply: func(ss []*SvcSpec) {
+		ss[0].addType("X3", "Node", "a: Int")
+		ss[0].Query = append(ss[0].Query, "x30: X3")
+		ss[1].addType("X3", "Node", "b: Int")
+		ss[1].Query = append(ss[1].Query, "x31: X3")
+	}, Third: func() *SvcSpec {
+		s := newSvc("http://sx")
+		s.addType("X3", "", "c: Int")
+		s.Query = []string{"x3x: X3"}
+		return s
+	}})
 	out = append(out, ConflictAtom{"node-in-one-service-only", func(ss []*SvcSpec) {
 		ss[0].addType("X", "Node", "a: Int")
 		ss[0].Query = append(ss[0].Query, "x0: X")
 		ss[1].addType("X", "", "b: Int")
 		ss[1].Query = append(ss[1].Query, "x1: X")
-	}, true})
+	}, true, nil})
 	out = append(out, ConflictAtom{"node-in-one-service-only-other-is-id-only-stub", func(ss []*SvcSpec) {
 		// the other service only refers to the type: id and nothing else, without implementing Node
 		ss[0].addType("XS", "Node", "a: Int")
 		ss[0].Query = append(ss[0].Query, "xs0: XS")
 		ss[1].addType("XS", "", "id: ID!")
 		ss[1].Query = append(ss[1].Query, "xs1: XS")
-	}, true})
+	}, true, nil})
 	out = append(out, ConflictAtom{"node-lookup-with-extra-argument", func(ss []*SvcSpec) {
 		// the Relay lookup declared with a second argument by one service: one root field, two signatures
 		ss[0].NodeField = `node(id: ID!, lang: String = "en"): Node`
-	}, true})
+	}, true, nil})
 	out = append(out, ConflictAtom{"node-type-identical-in-two-services", func(ss []*SvcSpec) {
 		for si := 0; si < 2; si++ {
 			ss[si].addType("XN", "Node", "a: Int", "b: String")
 			ss[si].Query = append(ss[si].Query, fmt.Sprintf("xn%d: XN", si))
 		}
-	}, true})
+	}, true, nil})
 	out = append(out, ConflictAtom{"shared-type-id-in-one-only", func(ss []*SvcSpec) {
 		ss[0].addType("PI2", "", "id: ID!", "name: String")
 		ss[0].Query = append(ss[0].Query, "pi20: PI2")
 		ss[1].addType("PI2", "", "name: String")
 		ss[1].Query = append(ss[1].Query, "pi21: PI2")
-	}, true})
+	}, true, nil})
 	for _, other := range []string{"id: String!", "id: Int!", "id(format: String): ID!"} {
 		other := other
 		// a shared plain type whose only common field is id, with different signatures (other fields disjoint)
@@ -357,27 +397,27 @@ func conflictAtoms() []ConflictAtom {
 			ss[0].Query = append(ss[0].Query, "pi30: PI3")
 			ss[1].addType("PI3", "", other, "b: Int")
 			ss[1].Query = append(ss[1].Query, "pi31: PI3")
-		}, true})
+		}, true, nil})
 	}
-	out = append(out, ConflictAtom{"node-type-duplicate-field", func(ss []*SvcSpec) { ss[1].Types["N1"] = append(ss[1].Types["N1"], "name: String") }, true})
+	out = append(out, ConflictAtom{"node-type-duplicate-field", func(ss []*SvcSpec) { ss[1].Types["N1"] = append(ss[1].Types["N1"], "name: String") }, true, nil})
 	out = append(out, ConflictAtom{"shared-type-partial-overlap", func(ss []*SvcSpec) {
 		ss[0].addType("P", "", "a: Int", "b: Int")
 		ss[0].Query = append(ss[0].Query, "p0: P")
 		ss[1].addType("P", "", "a: Int", "c: Int")
 		ss[1].Query = append(ss[1].Query, "p1: P")
-	}, true})
+	}, true, nil})
 	out = append(out, ConflictAtom{"shared-type-subset", func(ss []*SvcSpec) {
 		ss[0].addType("P", "", "a: Int", "b: Int")
 		ss[0].Query = append(ss[0].Query, "p0: P")
 		ss[1].addType("P", "", "a: Int")
 		ss[1].Query = append(ss[1].Query, "p1: P")
-	}, true})
+	}, true, nil})
 	out = append(out, ConflictAtom{"shared-input-partial-overlap", func(ss []*SvcSpec) {
 		ss[0].Extra = append(ss[0].Extra, "input PI { a: Int b: Int }")
 		ss[0].Query = append(ss[0].Query, "pi0(x: PI): Int")
 		ss[1].Extra = append(ss[1].Extra, "input PI { a: Int c: Int }")
 		ss[1].Query = append(ss[1].Query, "pi1(x: PI): Int")
-	}, true})
+	}, true, nil})
 	for _, v := range [][3]string{{"type", "a: Int", "a: String"}, {"nullability", "a: Int", "a: Int!"}, {"list", "a: Int", "a: [Int]"},
 		{"arg-name", "a(x: Int): Int", "a(y: Int): Int"}, {"arg-type", "a(x: Int): Int", "a(x: String): Int"}, {"arg-default", "a(x: Int = 1): Int", "a(x: Int = 2): Int"},
 		{"arg-added", "a: Int", "a(x: Int): Int"},
@@ -398,7 +438,7 @@ func conflictAtoms() []ConflictAtom {
 				ss[0].Extra = append(ss[0].Extra, "input InDef { p: Int }")
 				ss[1].Extra = append(ss[1].Extra, "input InDef { p: Int }")
 			}
-		}, true})
+		}, true, nil})
 		out = append(out, ConflictAtom{"shared-input-field-different-" + v[0], func(ss []*SvcSpec) {
 			if strings.Contains(v[1], "(") || strings.Contains(v[2], "(") {
 				return
@@ -407,7 +447,7 @@ func conflictAtoms() []ConflictAtom {
 			ss[0].Query = append(ss[0].Query, "pi0(x: PI): Int")
 			ss[1].Extra = append(ss[1].Extra, "input PI { "+v[2]+" }")
 			ss[1].Query = append(ss[1].Query, "pi1(x: PI): Int")
-		}, !strings.Contains(v[1]+v[2], "(")})
+		}, !strings.Contains(v[1]+v[2], "("), nil})
 	}
 	out = append(out, ConflictAtom{"union-different-members", func(ss []*SvcSpec) {
 		for si, m := range []string{"A2", "A3"} {
@@ -416,7 +456,7 @@ func conflictAtoms() []ConflictAtom {
 			ss[si].Extra = append(ss[si].Extra, "union UU = A1 | "+m)
 			ss[si].Query = append(ss[si].Query, fmt.Sprintf("uu%d: UU", si))
 		}
-	}, true})
+	}, true, nil})
 	out = append(out, ConflictAtom{"union-member-subset", func(ss []*SvcSpec) {
 		// the member list of one service is a strict subset of the other's
 		for si, ms := range [][]string{{"B1", "B2", "B3"}, {"B1", "B2"}} {
@@ -426,33 +466,33 @@ func conflictAtoms() []ConflictAtom {
 			ss[si].Extra = append(ss[si].Extra, "union UW = "+strings.Join(ms, " | "))
 			ss[si].Query = append(ss[si].Query, fmt.Sprintf("uw%d: UW", si))
 		}
-	}, true})
+	}, true, nil})
 	// acceptable differences: judged for permutation invariance only
 	out = append(out, ConflictAtom{"ok:enum-more-values", func(ss []*SvcSpec) {
 		ss[0].Extra = append(ss[0].Extra, "enum EE { A B }")
 		ss[0].Query = append(ss[0].Query, "ee0: EE")
 		ss[1].Extra = append(ss[1].Extra, "enum EE { B C }")
 		ss[1].Query = append(ss[1].Query, "ee1: EE")
-	}, false})
+	}, false, nil})
 	out = append(out, ConflictAtom{"ok:interface-more-implementers", func(ss []*SvcSpec) {
 		for si, m := range []string{"M0", "M1"} {
 			ss[si].addType("IF", "interface", "a: Int")
 			ss[si].addType(m, "IF", "a: Int")
 			ss[si].Query = append(ss[si].Query, fmt.Sprintf("if%d: IF", si))
 		}
-	}, false})
+	}, false, nil})
 	out = append(out, ConflictAtom{"ok:identical-shared-type-with-descriptions", func(ss []*SvcSpec) {
 		ss[0].addType("PD", "", `"doc zero" a: Int`)
 		ss[0].Query = append(ss[0].Query, "pd0: PD")
 		ss[1].addType("PD", "", `"doc one" a: Int`)
 		ss[1].Query = append(ss[1].Query, "pd1: PD")
-	}, false})
+	}, false, nil})
 	out = append(out, ConflictAtom{"ok:shared-scalar", func(ss []*SvcSpec) {
 		ss[0].Extra = append(ss[0].Extra, "scalar SS")
 		ss[0].Query = append(ss[0].Query, "ss0: SS")
 		ss[1].Extra = append(ss[1].Extra, "scalar SS")
 		ss[1].Query = append(ss[1].Query, "ss1: SS")
-	}, false})
+	}, false, nil})
 	return out
 }
 
@@ -497,7 +537,15 @@ func mergeJobs(tier string, prop string) []string {
 	return jobs
 }
 
-func worldsOfJob(job string) []WorldDesc {
+func worldsOfJob(prop, job string) []WorldDesc {
+	if job == "cornersets" {
+		// hand-written sets outside the atom catalogue
+		if prop == "C04" {
+			// (what the merged schema of a set with self-named roots should be is C03's question, and open: here only the routes are judged)
+			return []WorldDesc{{Base: "Wnodex"}, {Base: "Wroots"}}
+		}
+		return []WorldDesc{{Base: "Wnodex"}}
+	}
 	var from, to, dw int
 	fmt.Sscanf(job, "%d-%d/dw%d", &from, &to, &dw)
 	ws := EnumMergeWorlds([]string{"Wmin", "W0"}, dw)
@@ -550,7 +598,9 @@ func init() {
 		"refusing them is fine, a merge that succeeds must not have lost or overridden a declaration; plus 11 schema sets taken through the whole start-up path (real remote introspector over spec-shaped responders, then the merger inside NewGateway) under the same oracle; non-trivial = >=2 services"
 	c03.Assumptions = []string{"schemacanon.Canon defines schema equality (descriptions and applied directives excluded as the statement does not list them)", "all service sets here are mergeable by construction"}
 	c03.RunJob = func(tier, job string, from int, em *Emitter) { mergeRun("C03", tier, job, from, em) }
-	c03.Jobs = func(tier string) []string { return append([]string{"conflicts", "introspected"}, mergeJobs(tier, "C03")...) }
+	c03.Jobs = func(tier string) []string {
+		return append([]string{"conflicts", "introspected", "cornersets"}, mergeJobs(tier, "C03")...)
+	}
 	Props["C03"] = c03
 
 	c04 := mk("C04")
@@ -559,7 +609,9 @@ func init() {
 		"failing its introspection (each position), refusing to start is accepted, a gateway that starts is held to the same oracle over the services that answered; plus the conflicting sets of C05: if the merger accepts one, its table is held to the same oracle; non-trivial = >=2 services"
 	c04.Assumptions = []string{"the services' SDL is the ground truth for ownership"}
 	c04.RunJob = func(tier, job string, from int, em *Emitter) { mergeRun("C04", tier, job, from, em) }
-	c04.Jobs = func(tier string) []string { return append([]string{"introfail", "conflicts"}, mergeJobs(tier, "C04")...) }
+	c04.Jobs = func(tier string) []string {
+		return append([]string{"introfail", "conflicts", "cornersets"}, mergeJobs(tier, "C04")...)
+	}
 	Props["C04"] = c04
 
 	c05 := mk("C05")
@@ -650,6 +702,9 @@ func c03Conflicts(prop string, from int, em *Emitter) {
 			}
 			ss, _ := specsOf(WorldDesc{Base: base})
 			ca.Apply(ss)
+			if ca.Third != nil {
+				ss = append(ss, ca.Third())
+			}
 			var sdls, urls []string
 			var schemas []*ast.Schema
 			valid := true
@@ -792,7 +847,7 @@ func mergeRun(prop, tier, job string, from int, em *Emitter) {
 		c03Conflicts(prop, from, em)
 		return
 	}
-	ws := worldsOfJob(job)
+	ws := worldsOfJob(prop, job)
 	idx := 0
 	for _, wd := range ws {
 		if prop == "C05" {
@@ -868,6 +923,9 @@ func c05World(wd WorldDesc, idx *int, from int, em *Emitter) {
 			return
 		}
 		ca.Apply(ss)
+		if ca.Third != nil {
+			ss = append(ss, ca.Third())
+		}
 		var sdls, urls []string
 		valid := true
 		for _, s := range ss {
